@@ -183,6 +183,8 @@ CaseOf(c) ==
                 @@ (IF "fp" \in DOMAIN c THEN [foreigntp |-> <<"t2">>] ELSE EmptyFn),
         runs |-> {[label |-> "sandbox", tp |-> Sources(Tp(c), LMin), xcalls |-> [id \in {} |-> 0], denyfalse |-> FALSE, then |-> <<>>],
                   [label |-> "sandbox/debug", tp |-> Sources(Tp(c), LMin), xcalls |-> [id \in {} |-> 0], denyfalse |-> FALSE, then |-> <<>>, debug |-> TRUE],
+                  \* (EnableSandbox(policy), then DisableSandbox(): the policy is still installed and the tag still says sandboxed)
+                  [label |-> "sandbox/disabled", tp |-> Sources(Tp(c), LMin), xcalls |-> [id \in {} |-> 0], denyfalse |-> FALSE, then |-> <<>>, disablesandbox |-> TRUE],
                   [label |-> "denyfalse", tp |-> Sources(Tp(c), LMin), xcalls |-> [id \in {} |-> 0], denyfalse |-> TRUE, then |-> <<>>]}
                  \cup (IF c.pol = "empty" \/ c.pos \in ModCall THEN {} ELSE
                        {[label |-> "repolicy", tp |-> Sources(Tp(c), LMin), xcalls |-> [id \in {} |-> 0], denyfalse |-> FALSE, then |-> <<phase(FALSE)>>],
@@ -224,10 +226,26 @@ CaseOfWidget(c) ==
                [label |-> "widget/debug", tp |-> Sources(WidgetTp(c), LMin), xcalls |-> [id \in {} |-> 0], debug |-> TRUE]},
      expect |-> [ok |-> FALSE, out |-> <<>>, err |-> "any", calls |-> [id \in {} |-> 0], always |-> [id \in {"f1"} |-> 0]]]
 
-Init == cs \in WidgetCases \cup {c \in Cases \cup PreCases \cup ForeignCases \cup DenyCases \cup EscCases : Valid(c) /\ Ref(c).err # "frag"
+\* the forbidden name stands at the TOP LEVEL of a library that the sandboxed template imports or from-imports.  Whether loading a
+\* library runs its top level at all is not stated (the pinned tree renders it and discards the output); if it runs, it runs
+\* in the sandbox: the forbidden callback is never invoked
+LibTopCases == {[libtop |-> r, pos |-> pos, kind |-> kind] : r \in {"from", "import", "fromininclude"}, pos \in {"print", "forseq", "chainupper", "set", "ifcond"}, kind \in {"fn", "filter"}}
+LibTopTp(c) ==
+    LET lib == <<Macro("mw", <<>>, <<T(<<109>>)>>)>> \o Frag(c.pos, c.kind)
+        use == IF c.libtop = "import" THEN <<Import(LS(NT.t2), "L"), PrintS(MCall("L", "mw", <<>>))>> ELSE <<From(LS(NT.t2), <<"mw">>, <<"mw">>), PrintS(Call("mw", <<>>))>> IN
+    ("main" :> <<T(<<91>>), Include(LS(NT.t1), Lit(Null), FALSE, FALSE, FALSE, TRUE), T(<<93>>)>>)
+    @@ ("t1" :> IF c.libtop = "fromininclude" THEN <<Inc(LS(NT.t3))>> ELSE use) @@ ("t3" :> use) @@ ("t2" :> lib)
+CaseOfLibTop(c) ==
+    [prop |-> "C06", key |-> ToJson(c), tags |-> {"libtop:" \o c.libtop, "pos:" \o c.pos, "kind:" \o c.kind, "pol:forbid", "route:library-top-level"},
+     entry |-> "main", ctx |-> EmptyFn, cfg |-> [sandbox |-> TRUE, allowf |-> AllowF("forbid"), allowfn |-> AllowFn("forbid")],
+     runs |-> {[label |-> "libtop", tp |-> Sources(LibTopTp(c), LMin), xcalls |-> [id \in {} |-> 0]],
+               [label |-> "libtop/debug", tp |-> Sources(LibTopTp(c), LMin), xcalls |-> [id \in {} |-> 0], debug |-> TRUE]},
+     expect |-> [ok |-> TRUE, anyoutcome |-> TRUE, out |-> <<>>, noout |-> TRUE, err |-> "", calls |-> [id \in {} |-> 0], always |-> [id \in {"f1"} |-> 0]]]
+
+Init == cs \in LibTopCases \cup WidgetCases \cup {c \in Cases \cup PreCases \cup ForeignCases \cup DenyCases \cup EscCases : Valid(c) /\ Ref(c).err # "frag"
                                   /\ Render(MkW(Tp(c), AllowF(IF c.pol = "allow" THEN "forbid" ELSE "allow"), AllowFn(IF c.pol = "allow" THEN "forbid" ELSE "allow"), NoFault), "main", EmptyFn).err # "frag"}
 Next == UNCHANGED cs
 Spec == Init /\ [][Next]_cs
-Emit == PrintT(ToJson(IF "deny" \in DOMAIN cs THEN CaseOfDeny(cs) ELSE IF "widget" \in DOMAIN cs THEN CaseOfWidget(cs) ELSE CaseOf(cs)))
-ModelOK == "widget" \in DOMAIN cs \/ Confined(cs)
+Emit == PrintT(ToJson(IF "deny" \in DOMAIN cs THEN CaseOfDeny(cs) ELSE IF "widget" \in DOMAIN cs THEN CaseOfWidget(cs) ELSE IF "libtop" \in DOMAIN cs THEN CaseOfLibTop(cs) ELSE CaseOf(cs)))
+ModelOK == "widget" \in DOMAIN cs \/ "libtop" \in DOMAIN cs \/ Confined(cs)
 =============================================================================
